@@ -856,6 +856,26 @@ def parser_details(repo, rep, rule="R03.3", slash=False):
               "ones at the end, '--' anywhere in a comment (%d tests)" % n,
               construct="identify-ends", where=L.where(idf),
               detail="; ".join(bad))
+    # ... and each delimiter names its own kind of token (the kind selects
+    # the visitor: a CDATA section taken for a comment is interpolated and
+    # escaped like one, an XML declaration taken for CDATA is no tag)
+    kinds = {"<!--": "comment", "<![CDATA[": "cdata", "<!": "declaration",
+             "<?xml": "xml_declaration", "<?": "processing_instruction",
+             "</": "end_tag", "/>": "empty_tag", ">": "start_tag"}
+    got = {}
+    for n_ in ast.walk(idf.node):
+        if isinstance(n_, ast.If) and isinstance(n_.test, ast.Call) and \
+                isinstance(n_.test.func, ast.Attribute) and \
+                n_.test.func.attr in ("startswith", "endswith") and \
+                n_.test.args and isinstance(n_.test.args[0], ast.Constant):
+            rets = [r_ for r_ in n_.body if isinstance(r_, ast.Return)]
+            if rets and isinstance(rets[-1].value, ast.Constant):
+                got[n_.test.args[0].value] = rets[-1].value.value
+    wrong = {k: got.get(k) for k, v in kinds.items() if got.get(k) != v}
+    rep.check(not wrong, rule, idf.qualname, "every delimiter classifies "
+              "its token as its own kind (%d delimiters)" % len(kinds),
+              construct="identify-kinds", where=L.where(idf),
+              detail=str(wrong) if wrong else "")
     ve = repo.cls(PARSER + ".ElementParser").methods["visit_end_tag"]
     incs = [a for a in ast.walk(ve.node) if isinstance(a, ast.AugAssign)
             and isinstance(a.op, ast.Add)]
